@@ -481,7 +481,9 @@ def histories(draw, n, max_len=None, finishers=None):
         st.sampled_from(args).map(lambda k: "nthb:%d" % k),
     )
     ops = draw(st.lists(op, max_size=max_len))
-    fin = draw(st.sampled_from((finishers or M.FINISHERS) + [None]))
+    fin = draw(st.sampled_from((finishers or (M.FINISHERS + M.PARAM_FINISHERS)) + [None]))
+    if fin in M.PARAM_FINISHERS:
+        fin = "%s:%d" % (fin, draw(st.sampled_from(args)))
     if fin is not None:
         ops = ops + [fin]
     return ops
